@@ -27,6 +27,24 @@ from strawberryfields.tdm import TDMProgram, is_ptype
 from strawberryfields import ops
 
 
+# gates whose inverse is obtained by negating the first parameter (see :class:`~.ops.Gate`)
+NEGATION_INVERTS = {
+    "Xgate",
+    "Zgate",
+    "Rgate",
+    "Pgate",
+    "Vgate",
+    "Kgate",
+    "CXgate",
+    "CZgate",
+    "CKgate",
+    "Dgate",
+    "Sgate",
+    "BSgate",
+    "S2gate",
+}
+
+
 def from_blackbird(bb: blackbird.BlackbirdProgram) -> Program:
     """Convert a Blackbird program to a Strawberry Fields program.
 
@@ -210,7 +228,17 @@ def to_blackbird(prog: Program, version: str = "1.0") -> blackbird.BlackbirdProg
                     op["kwargs"]["dark_counts"] = cmd.op.dark_counts
 
         else:
-            for a in cmd.op.p:
+            params = list(cmd.op.p)
+            if getattr(cmd.op, "dagger", False):
+                # Blackbird has no syntax for an inverted gate: write the equivalent
+                # non-inverted gate where the inverse is the negated first parameter
+                if op["op"] not in NEGATION_INVERTS:
+                    raise ValueError(
+                        "The inverse of {} cannot be represented in Blackbird.".format(op["op"])
+                    )
+                params[0] = -params[0]
+
+            for a in params:
                 if sfpar.par_is_symbolic(a):
                     # SymPy object, convert to string
                     if any(map(isMeasuredParameter, a.free_symbols)):
